@@ -39,7 +39,7 @@ def gen(tier, seed):
                           simple=True, null_sub=True)
         decls = G.gen_schema(rng, so)
         nocase = rng.random() < 0.25
-        to = {'nocase': nocase, 'titles': ['a', 'A', 'b', 'web', 'Web', 'two words', '', 'x=y'] if nocase else None}
+        to = {'nocase': nocase, 'titles': ['a', 'A', 'b', 'web', 'Web', 'two words', '', 'x=y'] if nocase else None, 'oddkeys': not nocase}
         ntext = 1 if rng.random() < 0.7 else rng.randint(2, 4)
         texts = []
         for _ in range(ntext):
